@@ -191,8 +191,11 @@ class OperationExecutor(ABC, Generic[T]):
             # body runs again) gets here without having sent a checkpoint, and a checkpoint is where
             # a branch whose parent context already completed is normally stopped. Ask before any
             # user code of the operation runs.
+            # (A context recorded SUCCEEDED whose summarised body is traversed again is replay,
+            # not new work: everything beneath a context that completed normally is marked as
+            # done as well, so asking there would reject a legitimate re-traversal.)
             state: ExecutionState | None = getattr(self, "state", None)
-            if state is not None:
+            if state is not None and not result.checkpointed_result.is_succeeded():
                 state.raise_if_orphaned(
                     self.operation_identifier.operation_id,
                     self.operation_identifier.parent_id,
